@@ -361,9 +361,108 @@ def _run_hist(spec):
     return col.result()
 
 
+# --------------------------------------------------------------------------
+# long graphs: simple paths far longer than the interpreter's default recursion limit
+
+
+def _long_graphs(n):
+    chain = {str(i): ((str(i + 1),) if i + 1 < n else ()) for i in range(n)}
+    loops = {}
+    for i in range(0, n - 1, 2):  # consecutive two-block loops: i <-> i+1, then on to i+2
+        loops[str(i)] = (str(i + 1),)
+        loops[str(i + 1)] = (str(i), str(i + 2)) if i + 2 < n else (str(i),)
+    if n % 2:
+        loops[str(n - 1)] = ()
+    ladder = {}
+    i = 0
+    while i + 3 < n:
+        ladder[str(i)], ladder[str(i + 1)], ladder[str(i + 2)] = (str(i + 1), str(i + 2)), (str(i + 3),), (str(i + 3),)
+        i += 3
+    for j in range(i, n):
+        ladder[str(j)] = (str(j + 1),) if j + 1 < n else ()
+    ring = {str(i): (str((i + 1) % n),) for i in range(n)}
+    return dict(chain=chain, loops=loops, ladder=ladder, ring=ring)
+
+
+def check_long(label, g):
+    """queries on a graph with a simple path of > 1000 blocks, under the interpreter's DEFAULT recursion limit (the
+    harness itself runs with a larger one); expected values from gen_graphs' own iterative SCC and a plain BFS."""
+    import sys
+
+    names = list(g)
+    idx = {k: i for i, k in enumerate(names)}
+    intg = {idx[k]: tuple(idx[t] for t in v) for k, v in g.items()}
+    want_scc = {frozenset(names[i] for i in c) for c in gg.sccs(intg)}
+
+    def bfs(a):
+        seen, todo = set(), list(g[a])
+        while todo:
+            x = todo.pop()
+            if x not in seen:
+                seen.add(x)
+                todo.extend(g.get(x, ()))
+        return seen
+
+    scfg = SCFG({k: BasicBlock(name=k, _jump_targets=tuple(v)) for k, v in g.items()})
+    old = sys.getrecursionlimit()
+    sys.setrecursionlimit(1000)
+    try:
+        try:
+            got = {frozenset(c) for c in scfg.compute_scc()}
+        except Exception as e:
+            raise M.Viol(f"Q-scc-raise:{type(e).__name__}", f"{label} ({len(g)} blocks): compute_scc raised {type(e).__name__}")
+        if got != want_scc:
+            raise M.Viol("Q-scc", f"{label} ({len(g)} blocks): compute_scc gives {len(got)} components, mutual reachability {len(want_scc)}")
+        for a, b in ((names[0], names[-1]), (names[-1], names[0]), (names[len(names) // 2], names[len(names) // 2]), (names[1], names[-2])):
+            try:
+                r = scfg.is_reachable_dfs(a, b)
+            except Exception as e:
+                raise M.Viol(f"Q-reach-raise:{type(e).__name__}", f"{label} ({len(g)} blocks): is_reachable_dfs({a},{b}) raised {type(e).__name__}")
+            if bool(r) != (b in bfs(a)):
+                raise M.Viol("Q-reach", f"{label} ({len(g)} blocks): is_reachable_dfs({a},{b}) = {r}")
+        tg = {t for v in g.values() for t in v}
+        heads = [k for k in names if k not in tg]
+        if len(heads) == 1:
+            try:
+                h = scfg.find_head()
+            except Exception as e:
+                raise M.Viol(f"Q-head-raise:{type(e).__name__}", f"{label}: find_head raised {type(e).__name__}")
+            if h != heads[0]:
+                raise M.Viol("Q-head", f"{label}: find_head = {h}")
+            for fn in (T._doms, T._post_doms) if not label.startswith("ladder") else ():  # quadratic on the ladder: seconds
+                try:
+                    d = fn(scfg)
+                except Exception as e:
+                    raise M.Viol(f"Q-dom-raise:{type(e).__name__}", f"{label} ({len(g)} blocks): {fn.__name__} raised {type(e).__name__}")
+                if set(d) != set(names):
+                    raise M.Viol("Q-dom-keys", f"{label}: {fn.__name__} has {len(d)} keys for {len(names)} blocks")
+            if label.startswith("chain"):
+                d = T._doms(scfg)
+                k = names[len(names) // 2]
+                if set(d[k]) != set(names[: len(names) // 2 + 1]):
+                    raise M.Viol("Q-dom", f"{label}: dominators of the middle block of a chain are not exactly the blocks before it")
+    finally:
+        sys.setrecursionlimit(old)
+
+
+def _run_long(spec):
+    col = Collector()
+    for n in spec[1]:
+        for label, g in _long_graphs(n).items():
+            lab = f"{label}{n}"
+            try:
+                check_long(lab, g)
+            except M.Viol as v:
+                col.fail(f"C13:long:{v.clause}", v.msg, dict(mode="long", shape=label, n=n), 10)
+            col.case(("long", label, n), n, True, sample=dict(mode="long", shape=label, blocks=n), classes=["long"])
+    return col.result()
+
+
 def run(spec):
     col = Collector()
     kind = spec[0]
+    if kind == "long":
+        return _run_long(spec)
     if kind == "hist":
         return _run_hist(spec)
     if kind == "exh":
@@ -469,7 +568,9 @@ def plan(tier, seed):
         specs += [("enum", 5, s, 16, 24, seed % 24) for s in range(16)]
         specs += [("hypg", seed, s, 60, 14) for s in range(16)]
         specs += [("hist", seed, s, 120) for s in range(8)]
+        specs += [("long", [1301]), ("long", [2102])]
     else:
+        specs += [("long", [1301]), ("long", [2102]), ("long", [5000])]
         specs += [("hist", seed, s, 2500) for s in range(16)]
         specs += [("exh", 1, 3, 0, 1, 1, 0), ("exh", 2, 3, 0, 1, 1, 0)]
         specs += [("exh", 3, 3, s, 32, 1, 0) for s in range(32)]
@@ -484,6 +585,12 @@ def plan(tier, seed):
 
 def replay(inp):
     try:
+        if inp.get("mode") == "long":
+            try:
+                check_long(f"{inp['shape']}{inp['n']}", _long_graphs(inp["n"])[inp["shape"]])
+            except M.Viol as v:
+                return [(f"C13:long:{v.clause}", v.msg)]
+            return []
         if inp.get("mode") == "hier":
             col = Collector()
             _eval_hier(col, gg.graph_from_json(inp["graph"]), "replay")
